@@ -48,8 +48,6 @@ type c15Entry struct {
 	Fields []c15Field
 }
 
-func ll(lat, lng float64) s2.Point { return s2.PointFromLatLng(s2.LatLngFromDegrees(lat, lng)) }
-
 func snapLoop(center s2.Point, radiusDeg float64, n, level int, offCentre int) *s2.Loop {
 	l := s2.RegularLoop(center, s1.Degree*s1.Angle(radiusDeg), n)
 	pts := make([]s2.Point, n)
